@@ -143,6 +143,8 @@ def check_views(ctx, gf, shx, case):
 def run(ctx):
     common.check_obligations(ctx, THEOREMS)
     rng = ctx.rng
+    from shelxfile.shelx.shelx import Shelxfile
+    reused = Shelxfile()           # every file is also read on this one object, after all the files before it
     nfiles = 10000 if ctx.thorough() else 150
     terms, defs = [], []
     ev = 0
@@ -162,6 +164,12 @@ def run(ctx):
         got = im.atoms_table(shx)
         if compare_atoms(ctx, exp_rows(gf), got, case):
             check_views(ctx, gf, shx, case)
+            import contextlib, io
+            with contextlib.redirect_stdout(io.StringIO()):
+                reused.read_string(text)
+            if im.atoms_table(reused) != got:
+                bad = next((x, y) for x, y in zip(im.atoms_table(reused) + [None], got + [None]) if x != y)
+                common.add_violation(ctx, 'the atoms of a file depend on what the object had read before', case, str(bad[1])[:200], str(bad[0])[:200])
         evs = events_of(gf)
         defs.append('Definition ev%d : list event := %s.' % (k, clist(evs)))
         defs.append('Definition im%d : list (str * Z * Z * Z * Z * str * Q * bool) := %s.' % (k, clist(
@@ -216,36 +224,63 @@ def witnesses(ctx):
 
 
 def include_files(ctx, n):
-    """atoms from files spliced in at the point of a '+filename' line"""
+    """atoms from files spliced in at the point of '+filename' lines: one or two include files at different positions, one of them
+    possibly including a third; the spliced atoms take the PART / AFIX / RESI context of the place of the include line"""
     rng = ctx.rng
     ev = 0
     for k in range(n):
-        gf = rf.gen_file(rng, natoms=rng.randint(2, 5), restraints=False, resi=False, parts=False, afix=False, with_qpeaks=False)
+        gf = rf.gen_file(rng, natoms=rng.randint(3, 7), restraints=False, with_qpeaks=False)
         d = tempfile.mkdtemp(prefix='verif-c03-')
         try:
-            atom_idx = [i for i, l in enumerate(gf['lines']) if l['kind'] == 'atom']
-            pos = rng.choice(atom_idx + [atom_idx[-1] + 1])
-            inc_atoms = []
-            inc_lines = []
-            for j in range(rng.randint(1, 3)):
-                nm = 'C%d%s' % (90 + j, 'X')
-                xyz = [round(rng.uniform(0, 1), 4) for _ in range(3)]
-                inc_lines.append('%s 1 %.4f %.4f %.4f 11.0 0.05' % (nm, *xyz))
-                inc_atoms.append({'name': nm, 'sfac': 1, 'element': gf['elements'][0], 'xyz': xyz, 'sof': 11.0, 'own_sof': 11.0, 'uvals': [0.05, 0, 0, 0, 0, 0],
-                                  'ncols': 7, 'part': 0, 'afix': 0, 'resinum': 0, 'resiclass': '', 'qpeak': False})
-            open(os.path.join(d, 'inc.dfx'), 'w').write('\n'.join(inc_lines) + '\n')
-            n_before = sum(1 for l in gf['lines'][:pos] if l['kind'] == 'atom')
-            gf['lines'].insert(pos, {'tokens': ['+inc.dfx'], 'kind': 'include'})
-            gf['atoms'][n_before:n_before] = inc_atoms
+            files = {}
+            ninc = rng.randint(1, 2)
+            done = 0
+            for j in range(ninc):
+                atom_idx = [i for i, l in enumerate(gf['lines']) if l['kind'] == 'atom']
+                pos = rng.choice(atom_idx + [atom_idx[-1] + 1])
+                # context in force at that position
+                ctxp = {'part': 0, 'psof': None, 'afix': 0, 'resi': (0, '')}
+                for l in gf['lines'][:pos]:
+                    if l['kind'] == 'part':
+                        ctxp['part'], ctxp['psof'] = l['n'], l['sof']
+                    elif l['kind'] == 'afix':
+                        ctxp['afix'] = l['mn']
+                    elif l['kind'] == 'resi':
+                        ctxp['resi'] = (l['number'], l['cls'])
+                inc_atoms, inc_lines = [], []
+                nested = rng.random() < 0.4
+                names = ['C%d%s' % (90 + 3 * j + q, 'X') for q in range(rng.randint(1, 3))]
+                nest_at = rng.randint(0, len(names)) if nested else None
+                for q, nm in enumerate(names + ([None] if nested and nest_at == len(names) else [])):
+                    if nested and q == nest_at:
+                        nn = 'nest%d.dfx' % j
+                        xyz = [round(rng.uniform(0, 1), 4) for _ in range(3)]
+                        files[nn] = ['N%dY 1 %.4f %.4f %.4f 11.0 0.05' % (j, *xyz)]
+                        inc_lines.append('+' + nn)
+                        inc_atoms.append(('N%dY' % j, xyz))
+                    if nm is None:
+                        continue
+                    xyz = [round(rng.uniform(0, 1), 4) for _ in range(3)]
+                    inc_lines.append('%s 1 %.4f %.4f %.4f 11.0 0.05' % (nm, *xyz))
+                    inc_atoms.append((nm, xyz))
+                fname = 'inc%d.dfx' % j
+                files[fname] = inc_lines
+                rows = [{'name': nm, 'sfac': 1, 'element': gf['elements'][0], 'xyz': xyz, 'sof': ctxp['psof'] if ctxp['psof'] is not None else 11.0, 'own_sof': 11.0,
+                         'uvals': [0.05, 0, 0, 0, 0, 0], 'ncols': 7, 'part': ctxp['part'], 'afix': ctxp['afix'], 'resinum': ctxp['resi'][0], 'resiclass': ctxp['resi'][1],
+                         'qpeak': False} for nm, xyz in inc_atoms]
+                n_before = sum(1 for x in gf['lines'][:pos] if x['kind'] == 'atom') + sum(len(x['rows']) for x in gf['lines'][:pos] if x['kind'] == 'include')
+                gf['lines'].insert(pos, {'tokens': ['+' + fname], 'kind': 'include', 'rows': rows})
+                gf['atoms'][n_before:n_before] = rows
+            for fn, body in files.items():
+                open(os.path.join(d, fn), 'w').write('\n'.join(body) + '\n')
             text = rf.render_file(gf, rng, 'plain')
-            # the generated file must have at least 20 lines for read_file's validity test in verbose mode only; quiet is used
             path = os.path.join(d, 'main.res')
             open(path, 'w').write(text)
             status, inner, shx = im.read_text(None, 'quiet', path=path)
             ev += 1
-            case = {'text': text, 'include': '\n'.join(inc_lines)}
+            case = {'text': text, 'include': str(files)}
             if status != 'ok' or inner:
-                common.add_violation(ctx, 'file with an include file raises', case, 'ok', '%s %s' % (status, inner))
+                common.add_violation(ctx, 'file with include files raises', case, 'ok', '%s %s' % (status, inner))
                 continue
             compare_atoms(ctx, exp_rows(gf), im.atoms_table(shx), case)
         finally:
